@@ -271,12 +271,19 @@ def cgmap_jobs(ctx, n, tag="cg"):
                 "state": [float(rng.choice([5, 12, 40, 3])) for _ in range(2 * ncell)]}
         S = {"system": sysd, "kw": {"t_sample": [0.0, 0.05, 0.1], "time_step": 0.01, "t_max": 0.1, "sampling_policy": "on_t_sample",
                                     "rng_seed": rng.randint(0, 2 ** 31 - 1)}}
-        ngroups = rng.randint(1, max(1, ncell - 1))
-        cuts = sorted(rng.sample(range(1, ncell), ngroups - 1)) if ngroups > 1 else []
-        cg = [sum(1 for c in cuts if c <= k) for k in range(ncell)]
+        # groups = consecutive runs of at least 2 cells, so that a mark never removes a whole group (the map stays valid but
+        # for the mark itself)
+        ngroups = rng.randint(1, max(1, ncell // 2))
+        sizes = [2] * ngroups
+        for _ in range(ncell - 2 * ngroups):
+            sizes[rng.randrange(ngroups)] += 1
+        cg = [g for g, sz in enumerate(sizes) for _ in range(sz)]
         marks = [[-1], [-2], [-3, -1], [-2, -2], []][i % 5]
+        free = list(range(ncell))
         for m in marks:
-            cg[rng.randrange(ncell)] = m
+            ok = [k for k in free if cg[k] >= 0 and sum(1 for v in cg if v == cg[k]) >= 2] or free
+            k = rng.choice(ok)
+            cg[k] = m
         jobs.append({"id": "%s%d" % (tag, i), "engines": [option], "scripts": [S], "timeout": 20, "marks": marks, "cgmap": cg,
                      "calls": [{"obj": 0, "call": "simulate_cg", "script": 0, "cgmap": cg}, {"obj": 0, "call": "finalize"}]})
     for kind in ("plain", "hard", "asan"):
